@@ -153,7 +153,7 @@ template <typename PH> struct PpsChain {
       else if (d != 1) { violation(key("certificate", op.name, TR::nnc() ? ":nnc-counts" : ""), "non-stationary step without strict decrease of the recomputed powerset certificate: " + txt + "; y=" + show_ps(SY) + " x=" + show_ps(SX) + " result=" + show_ps(SZ)); return false; }
     }
     if (!twin_reported && coin(70)) {
-      bool perm = coin(35); std::string dx, dy;
+      bool perm = op.name.find("BGP99") == std::string::npos && coin(35); std::string dx, dy;
       PS x2 = twin(x_t, perm, dx), y2 = twin(y_t, perm && coin(), dy);
       checked(2);
       if (!same_collection(obs(x2), SX) || !same_collection(obs(y2), SY)) hx::inconclusive("twin_build_mismatch." + dom);
@@ -201,7 +201,7 @@ template <typename PH> struct PpsChain {
     PS y(n, EMPTY); int nd = coin(8) ? 0 : rnd(1, 3); for (int i = 0; i < nd; ++i) y.add_disjunct(random_polytope(0)); y.omega_reduce();
     { std::ostringstream o; o << dom << " n=" << n << " chain of " << op.name; if (op.name.find("limited") != std::string::npos) o << " cs=" << str(lim_cs); o << " y0=" << show_ps(obs(y)); tr(o.str()); }
     hx::count("chains." + dom + "." + op.name);
-    int cap = op.widening ? (int) hx::opt().geti("cap", 200) : 6, quiet = 0, len = 0, it = 0;
+    int cap = op.widening ? (int) hx::opt().geti("cap", 200) : 6, quiet = 0, len = 0, it = 0; bool has_strict = op.name.find("limited") != std::string::npos && lim_cs.has_strict_inequalities();
     for (; it < cap; ++it) {
       hx::count("steps");
       try {
@@ -211,13 +211,17 @@ template <typename PH> struct PpsChain {
         if (x.size() > 6) { hx::inconclusive("pps_size_cap"); break; }
         tr(" || x=y (+) " + gt);
         PS z(x); bool stationary = false;
+        { std::vector<Sys> a = obs(x), b = obs(y); for (size_t i = 0; i < a.size(); ++i) for (size_t j = 0; j < a[i].size(); ++j) if (a[i][j].rel == ref::LT) has_strict = true; for (size_t i = 0; i < b.size(); ++i) for (size_t j = 0; j < b[i].size(); ++j) if (b[i][j].rel == ref::LT) has_strict = true; }
         if (!step(op, y, x, z, stationary)) return;
         if (stationary) { if (++quiet >= 3) break; } else { quiet = 0; ++len; }
         z.omega_reduce();
         if (z.size() > 7) { hx::inconclusive("pps_size_cap"); break; }
         if (coin(25)) { std::string d; PS zt = twin(z, false, d); if (same_collection(obs(zt), obs(z))) { y = zt; tr(" || y=twin(z)"); hx::count("alternations"); } else y = z; } else y = z;
       } catch (const Logical_Timeout&) { violation(key("hang", op.name), "logical-time budget exceeded"); return;
-      } catch (const std::exception& e) { violation(key("unexpected_exception", op.name, std::string(".") + typeid(e).name()), e.what()); return; }
+      } catch (const std::exception& e) {
+        // H79_Certificate's template constructor goes through C_Polyhedron(ph.constraints()): unusable on NNC disjuncts with strict constraints
+        std::string cls = (TR::nnc() && has_strict && op.name.find("<H79_Certificate>") != std::string::npos && std::string(e.what()).find("strict inequalities") != std::string::npos) ? ":nnc-disjunct-has-strict-inequality" : "";
+        violation(key("unexpected_exception", op.name, std::string(".") + typeid(e).name() + cls), e.what()); return; }
     }
     if (it >= cap && op.widening) hx::inconclusive("chain_cap." + dom);
     std::map<std::string, unsigned long>& c = hx::st().counters; std::string k = "max_chain_len." + dom + "." + op.name; if (c[k] < (unsigned long) len) c[k] = len;
